@@ -116,7 +116,7 @@ int main(int argc, char** argv) {
     std::unique_ptr<update_theta_sketch> sk[NS];
     std::unique_ptr<compact_theta_sketch> cv[NC];
     std::vector<uint8_t> blob[NB]; bool blobc[NB] = {false,false,false,false}; bool blive[NB] = {false,false,false,false};
-    uint64_t hseed[NS], cseed[NC], bseed[NB];
+    uint64_t hseed[NS], cseed[NC], bseed[NB]; uint8_t klg[NS], cklg[NC], bklg[NB];
     uint8_t lgk = (uint8_t)std::min(g.range(5, maxlgk), g.range(5, maxlgk));
     uint64_t sd = g.chance(25) ? g.next() % 100000 + 1 : DEFAULT_SEED;
     long wide = (1L << lgk) * (long)g.range(1, 6);
@@ -125,8 +125,10 @@ int main(int argc, char** argv) {
       float p = PS[g.below(5)];
       auto rf = (resize_factor)g.below(4);
       const uint64_t myseed = g.chance(25) ? sd2 : sd;
+      const uint8_t mylgk = (uint8_t)(g.chance(35) ? std::max(5, (int)lgk - 1 + (int)g.below(3)) : lgk);   // sketches of one segment differ in lg_k too
+      klg[i] = mylgk;
       auto b = update_theta_sketch::builder();
-      b.set_lg_k(lgk).set_resize_factor(rf).set_p(p).set_seed(myseed);
+      b.set_lg_k(mylgk).set_resize_factor(rf).set_p(p).set_seed(myseed);
       if (g.chance(30)) {
         // a REFUSED setter must leave the builder as it was
         int refused = 0;
@@ -137,7 +139,7 @@ int main(int argc, char** argv) {
       sk[i].reset(new update_theta_sketch(b.build()));
       hseed[i] = myseed;
       uint64_t startH = p < 1 ? (uint64_t)((double)MAXT * p) : MAXT;
-      Ev("New").i("id", i).i("k", 1L << lgk).i("lgk", lgk).i("rf", (int)rf).h("startH", startH).h("maxH", MAXT).emit();
+      Ev("New").i("id", i).i("k", 1L << mylgk).i("lgk", mylgk).i("rf", (int)rf).h("startH", startH).h("maxH", MAXT).emit();
     };
     mk(0);
     for (long n = 0; n < events; n++) {
@@ -166,13 +168,15 @@ int main(int argc, char** argv) {
       } else if (op < 100 - 3 - 2 * serde_pct) {
         int j = (int)g.below(NS);
         if (j != i) {
-          if (sk[j] && g.chance(50)) *sk[j] = s; else sk[j].reset(new update_theta_sketch(s));
-          hseed[j] = hseed[i];
+          // copy construction, copy assignment, move assignment from a temporary (targets of any configuration / emptiness)
+          const int how = sk[j] ? (int)g.below(3) : 0;
+          if (how == 1) *sk[j] = s; else if (how == 2) *sk[j] = update_theta_sketch(s); else sk[j].reset(new update_theta_sketch(s));
+          hseed[j] = hseed[i]; klg[j] = klg[i];
           Ev("Copy").i("src", i).i("dst", j).raw("r", proj(*sk[j], hseed[j])).emit();
         }
       } else if (op < 100 - 2 * serde_pct) {
         int c = (int)g.below(NC); bool ord = g.chance(50);
-        cv[c].reset(new compact_theta_sketch(s.compact(ord))); cseed[c] = hseed[i];
+        cv[c].reset(new compact_theta_sketch(s.compact(ord))); cseed[c] = hseed[i]; cklg[c] = klg[i];
         Ev("Compact").i("src", i).i("dst", c).b("ordered", ord).raw("r", proj(*cv[c], cseed[c])).emit();
       } else if (op < 100 - serde_pct) {
         int c = (int)g.below(NC); int b = (int)g.below(NB);
@@ -183,10 +187,10 @@ int main(int argc, char** argv) {
           auto bytes = comp ? cv[c]->serialize_compressed(hdr) : cv[c]->serialize(hdr);
           std::ostringstream os; if (comp) cv[c]->serialize_compressed(os); else cv[c]->serialize(os);
           std::string st = os.str();
-          blob[b].assign(bytes.begin() + hdr, bytes.end()); blobc[b] = comp; blive[b] = true; bseed[b] = cseed[c];
+          blob[b].assign(bytes.begin() + hdr, bytes.end()); blobc[b] = comp; blive[b] = true; bseed[b] = cseed[c]; bklg[b] = cklg[c];
           Ev("Ser").i("src", c).i("blob", b).b("compressed", comp).i("hdr", hdr).i("total", (long long)bytes.size())
             .i("size", (long long)blob[b].size()).i("advertised", (long long)cv[c]->get_serialized_size_bytes(comp))
-            .i("maxsize", (long long)compact_theta_sketch::get_max_serialized_size_bytes(lgk))
+            .i("maxsize", (long long)compact_theta_sketch::get_max_serialized_size_bytes(cklg[c]))
             .bytes("img", blob[b].data(), blob[b].size()).bytes("simg", st.data(), st.size()).emit();
         }
       } else {
@@ -194,14 +198,14 @@ int main(int argc, char** argv) {
         if (blive[b]) {
           int path = (int)g.below(3);
           if (path == 0) {
-            cv[c].reset(new compact_theta_sketch(compact_theta_sketch::deserialize(blob[b].data(), blob[b].size(), bseed[b]))); cseed[c] = bseed[b];
+            cv[c].reset(new compact_theta_sketch(compact_theta_sketch::deserialize(blob[b].data(), blob[b].size(), bseed[b]))); cseed[c] = bseed[b]; cklg[c] = bklg[b];
             auto re = blobc[b] ? cv[c]->serialize_compressed() : cv[c]->serialize();
             Ev("Deser").i("blob", b).i("dst", c).str("path", "bytes").i("consumed", (long long)blob[b].size())
               .bytes("reimg", re.data(), re.size()).raw("r", proj(*cv[c], cseed[c])).emit();
           } else if (path == 1) {
             std::string in((const char*)blob[b].data(), blob[b].size()); in += std::string(16, '\x5a');
             std::istringstream is(in);
-            cv[c].reset(new compact_theta_sketch(compact_theta_sketch::deserialize(is, bseed[b]))); cseed[c] = bseed[b];
+            cv[c].reset(new compact_theta_sketch(compact_theta_sketch::deserialize(is, bseed[b]))); cseed[c] = bseed[b]; cklg[c] = bklg[b];
             long long consumed = (long long)is.tellg();
             auto re = blobc[b] ? cv[c]->serialize_compressed() : cv[c]->serialize();
             Ev("Deser").i("blob", b).i("dst", c).str("path", "stream").i("consumed", consumed)
@@ -209,7 +213,7 @@ int main(int argc, char** argv) {
           } else {
             auto w = wrapped_compact_theta_sketch::wrap(blob[b].data(), blob[b].size(), bseed[b]);
             // a compact copy of the wrapped view, to continue with
-            cv[c].reset(new compact_theta_sketch(w, w.is_ordered())); cseed[c] = bseed[b];
+            cv[c].reset(new compact_theta_sketch(w, w.is_ordered())); cseed[c] = bseed[b]; cklg[c] = bklg[b];
             Ev("Wrap").i("blob", b).i("dst", c).raw("r", proj(w, bseed[b])).raw("r2", proj(*cv[c], cseed[c])).emit();
             // the image is refused with any other seed
             bool refused = false;
